@@ -292,6 +292,74 @@ def tree_fn(p):
     return menu
 
 
+# ---------------------------------------------------------------- histories without an initial full call
+
+def check_partial(arch, base, scales, history):
+    """History of flag sets applied to the RAW spec (no initial full call).  A call may change a
+    quantity only if no earlier call of the history requested it (it is then computed for the
+    first time); anything requested before must stay as it is."""
+    from accelforge.frontend.spec import Spec
+
+    spec = Spec(arch=build_arch(ARCHS[arch], params(arch, base, scales)))
+    s = spec
+    requested = set()
+    n = 0
+    obs = []
+    for i, flags in enumerate(history):
+        before = snapshot(s) if i else None
+        s2 = s.calculate_component_costs(**FLAGSETS[flags])
+        n += 1
+        if before is not None:
+            ds = diff(before, snapshot(s2))
+            obs.append([list(map(_j, d)) for d in ds])
+            for d in ds:
+                q = d[1].replace("total_", "")
+                if q in requested:
+                    return ({"family": "recomputed-after-partial-history",
+                             "observed": {"call": i + 1, "flags": flags, "component": d[0], "quantity": d[1],
+                                          "action": d[2], "before": _j(d[3]), "after": _j(d[4])},
+                             "expected": "unchanged: the quantity was already calculated by an earlier call",
+                             "note": f"history {history}, requested before this call: {sorted(requested)}"}, obs, n)
+        requested |= {q for q, on in FLAGSETS[flags].items() if on}
+        s = s2
+    return None, obs, n
+
+
+def body_partial(cfg):
+    arch, base, scales = cfg[:3]
+    history = list(cfg[3:-1])
+    try:
+        viol, obs, n = check_partial(arch, base, scales, history)
+    except Exception as e:
+        viol, obs, n = ({"family": "raises", "observed": f"{type(e).__name__}:{str(e)[:300]}",
+                         "expected": "no exception"}, f"raise:{type(e).__name__}", 1)
+    sample = {"partial": True, "arch": arch, "base": list(base), "scales": dict(zip(FIELDS, scales)), "history": history}
+    if viol is not None:
+        viol = dict(viol)
+        viol["config"] = sample
+    return Result(outcome=obs, nontrivial=len(history) >= 2 and nontrivial(scales, history[1:]), validated=True,
+                  violation=viol, sample=sample, evaluations=n)
+
+
+def tree_partial(quick):
+    archs = ["H2"] if quick else ["H2", "H3T"]
+    scales = [tuple([2] * 7)] if quick else [tuple([2] * 7), (2, 0.5, 2, 0.5, 2, 2, 0.5)]
+    flags = list(FLAGSETS)
+
+    def tree(p):
+        if len(p) == 0:
+            return archs
+        if len(p) == 1:
+            return [(1, 3, 1, 3)]
+        if len(p) == 2:
+            return scales
+        if p[-1] == "$":
+            return None
+        h = len(p) - 3
+        return (flags if h < 3 else []) + (["$"] if h >= 1 else [])
+    return tree
+
+
 def one_at_a_time():
     out = [tuple([1] * 7), tuple([2] * 7), tuple([0.5] * 7)]
     for i in range(7):
@@ -322,6 +390,8 @@ def run(ctx):
                              [tuple([2] * 7), tuple([0.5] * 7), (2, 0.5, 2, 0.5, 2, 2, 0.5), (1, 2, 1, 2, 0.5, 1, 1)],
                              flagsets=flags, min_len=1, max_len=3)
     ctx.explore("recompute", tree_fn, body, shard_depth=5, distinct_by_construction=True)
+    # every history of length 1..3 over the 7 flag sets applied to the raw spec (no initial full call)
+    ctx.explore("partial-histories", tree_partial(q), body_partial, shard_depth=4, distinct_by_construction=True)
     ctx.bound(scale_values=[1, 2, 0.5], base_values=[1, 3], fields=FIELDS, flagsets=flags,
               **{k: {"archs": f["archs"], "pre_evaluated": f["pre"], "n_bases": len(f["bases"]),
                      "n_scale_assignments": len(f["scales"]), "history_len": [f["min_len"], f["max_len"]],
@@ -333,6 +403,10 @@ def run(ctx):
 def replay(ctx, rec):
     c = rec["config"]
     scales = tuple(c["scales"][f] for f in FIELDS)
+    if c.get("partial"):
+        viol, obs, n = check_partial(c["arch"], tuple(c["base"]), scales, list(c["history"]))
+        return {"observed": (viol or {}).get("observed", obs), "family": (viol or {}).get("family"),
+                "violation": viol is not None}
     viol, obs, n, changed = check(c["arch"], c["pre_evaluated"], tuple(c["base"]), scales, list(c["history"]))
     return {"observed": (viol or {}).get("observed", obs), "expected": (viol or {}).get("expected", "unchanged"),
             "family": (viol or {}).get("family"), "violation": viol is not None}
